@@ -72,6 +72,7 @@ def lot_accounting(R, rep):
     extra = neg - set(counters)
     rep.ob("R1", "available:only-counters", not extra, "only share counters are subtracted" if not extra else f"availability also subtracts {sorted(extra)}",
            b.loc(), key="R1:available:extra")
+    R._lot_fields = (sorted(pos), list(counters))
     okp = len(pos) == 1 and all("amount" in p for p in pos)
     rep.ob("R1", "available:+original", okp, f"availability starts from {sorted(pos)}" if okp else f"availability's positive part is {sorted(pos)}", b.loc(),
            key="R1:available:original")
